@@ -3,6 +3,7 @@ package harness
 import (
 	"encoding/json"
 	"fmt"
+	"os"
 	"sort"
 	"strconv"
 	"strings"
@@ -169,7 +170,7 @@ func runSettleHist(t *testing.T, in []string) string {
 					if strings.Contains(l, "insufficient") {
 						log = ":why=insufficient"
 					}
-					if settleDbg && (p.kind == "claim" || p.kind == "wfr") {
+					if settleDbg && (p.kind == "claim" || p.kind == "wfr" || p.kind == "disp") {
 						fmt.Println(p.op, "->", shortLog(l))
 					}
 				}
@@ -191,7 +192,8 @@ func runSettleHist(t *testing.T, in []string) string {
 			hh.Out = append(hh.Out, fmt.Sprintf("X %s:%s:%s%s%s", p.kind, p.signer, res, extra, log))
 		}
 		hh.Out = append(hh.Out, dumpRepStake(c)...)
-		hh.Out = append(hh.Out, dumpSlash(c)[:2]...) // U, P
+		ds := dumpSlash(c)
+		hh.Out = append(hh.Out, ds[0], ds[1], ds[3]) // U, P, K
 		hh.Out = append(hh.Out, dumpSettle(c)...)
 	}
 	for _, op := range strings.Split(in[1], ";") {
@@ -235,20 +237,39 @@ func genSettleHist(r *Rng, i int, tier string) []string {
 	if r.Chance(1, 2) {
 		tx("tip a3 q1 %d", r.Range(1000, 5e6))
 	}
+	if directed {
+		// v1 pays a large fee from bond: its selector a3 holds a small and a large delegation, so that the first validator cannot
+		// cover a3's share of the fee
+		tx("del a3 v1 %d", r.Pick(100000, 150000, 200000))
+		tx("del a3 v0 %d", r.Range(4e6, 9e6))
+		tx("sel a3 v1")
+	}
 	// the report that will be disputed (by a0 mostly: stake of several odd-sized backers)
 	target := r.PickS("a0", "a0", "v0")
+	if directed {
+		target = "v0"
+	}
 	q := r.Intn(3)
 	tx("tip a4 q%d %d", q, r.Range(1000, 1e6))
-	tx("rep %s q%d %064x", target, q, r.Range(1, 1e9))
+	add("rep %s q%d %064x", target, q, r.Range(1, 1e9)) // both reports in one block: the reporting window may be a single block
 	tx("rep v1 q%d %064x", q, r.Range(1, 1e9))
 	cat := 1 + r.Intn(3)
+	if directed {
+		cat = 2 // 5 % of v0's 1100 tokens: more than a3's small delegation can cover of its share, less than v1's group holds
+	}
 	// fee payers: one or several, repeated payments, from balance or from bond (v1 is a reporter: bond = its selectors' stake)
 	payers := []string{"a3", "a4", "a5", "v1", "a2"}
 	first := payers[r.Intn(len(payers))]
 	if directed {
 		first = "v1"
 	}
-	full := r.Chance(1, 3)
+	full := r.Chance(1, 3) || directed
+	// many payers (1 in 4 of the others): three to five distinct accounts pay odd amounts, so that every refund share has a
+	// fractional part (the remainders accumulate in the dust counter)
+	many := !directed && r.Chance(1, 4)
+	if many {
+		full = false
+	}
 	fee := int64(1e12)
 	if !full {
 		fee = r.Pick(1000, 4000, 10000, 25000, 1001, 3333, 7777)
@@ -262,9 +283,17 @@ func genSettleHist(r *Rng, i int, tier string) []string {
 	tx("disp %s R0 %d %d %d", first, cat, fee, bond(first))
 	if !full {
 		n := 1 + r.Intn(5)
+		start := r.Intn(len(payers))
+		if many {
+			n = 3 + r.Intn(3)
+		}
 		for j := 0; j < n; j++ {
 			p := payers[r.Intn(len(payers))]
 			amt := r.Pick(1000, 3000, 7000, 20000, 1e12, 1001, 3333, 7777, 2501)
+			if many {
+				p = payers[(start+j)%len(payers)]
+				amt = r.Pick(1001, 3333, 7777, 2501, 12345, 999)
+			}
 			if j == n-1 && r.Chance(4, 5) {
 				amt = 1e12 // completes the fee
 			}
@@ -296,9 +325,15 @@ func genSettleHist(r *Rng, i int, tier string) []string {
 	if directed {
 		tx("del a5 v2 %d", r.Pick(20000000, 30000000)) // v2 overtakes v1: v1 leaves the bonded set
 	}
-	if r.Chance(1, 6) {
+	if r.Chance(1, 6) || (directed && r.Chance(1, 2)) {
 		id++
-		tx("disp %s R1 3 %d 0", r.PickS("a5", "a3", "a2"), int64(1e12))
+		cat2 := int64(3)
+		if directed {
+			// v1 has paid a fee out of the stake its report recorded: a major dispute (100 %) could not be escrowed any more, a
+			// warning or minor one takes its part from delegations to a validator that has left the bonded set
+			cat2 = r.Pick(1, 2, 2)
+		}
+		tx("disp %s R1 %d %d 0", r.PickS("a5", "a3", "a2"), cat2, int64(1e12))
 		votes(id)
 	}
 	// up to two further rounds when the first tally leaves the dispute unresolved
@@ -343,10 +378,4 @@ func genSettleHist(r *Rng, i int, tier string) []string {
 	return []string{fmt.Sprint(nv), strings.Join(ops, ";"), cfgMaxv, cfgTokens}
 }
 
-var settleDbg = false
-
-func runSettleHistDbg(in []string) string {
-	settleDbg = true
-	defer func() { settleDbg = false }()
-	return fmt.Sprint(len(runSettleHist(nil, in)))
-}
+var settleDbg = os.Getenv("VERIF_DEBUG") != ""
